@@ -858,7 +858,8 @@ class FuncTranslator:
                     cx.declare(I.res, s.result_type(I))
         body = []
         first = True
-        for b, lst in s.insts.items():
+        for b in s.block_order():
+            lst = s.insts[b]
             body.append('%s: ;' % cx.label(b))
             for I in lst:
                 s.emit_inst(b, I, body)
@@ -877,6 +878,33 @@ class FuncTranslator:
         out.extend('  ' + x for x in body)
         out.append('}')
         return hdr, '\n'.join(out)
+
+    def block_order(s):
+        """Emission order of basic blocks. Normally the IR order. CBMC treats EVERY textually backward goto as a loop back-edge; when
+        clang lays out a loop latch before part of the loop body (`continue` inside a loop: body -> latch is then a backward goto that
+        is not a back-edge), CBMC sees two overlapping loops and reports spurious unwinding-assertion failures. Only for such functions
+        the blocks are emitted in reverse post-order, where the backward gotos are exactly the CFG's retreating edges."""
+        names = list(s.insts.keys())
+        if len(names) < 3: return names
+        succ = {}
+        for b in names:
+            raw = s.f.blocks[b][-1] if s.f.blocks[b] else ''
+            succ[b] = [x for x in re.findall(r'label (%(?:"[^"]*"|[-A-Za-z0-9_.$]+))', raw) if x in s.insts]
+        pos = {b: i for i, b in enumerate(names)}
+        state = {}; post = []; retreating = set()
+        stack = [(names[0], iter(succ[names[0]]))]; state[names[0]] = 1
+        while stack:
+            b, it = stack[-1]
+            for c in it:
+                if c not in state:
+                    state[c] = 1; stack.append((c, iter(succ[c]))); break
+                if state[c] == 1: retreating.add((b, c))
+            else:
+                state[b] = 2; post.append(b); stack.pop()
+        bad = any(pos[c] <= pos[b] and (b, c) not in retreating for b in names if b in state for c in succ[b])
+        if not bad: return names
+        rpo = post[::-1]
+        return rpo + [b for b in names if b not in state]
 
     def phi_moves(s, frm, to):
         em = s.em; cx = s.cx
@@ -910,6 +938,10 @@ class FuncTranslator:
             pa = s.ptr_of_int(I.a); pb = s.ptr_of_int(I.b)
             if pa is not None and pb is not None:
                 out.append('%s = %s;' % (R, em.mask(em.resolve(I.ty).n, '((%s)VERIF_PTRDIFF(%s, %s))' % (em.ctype(I.ty), V_(pa), V_(pb))))); return
+        if op == 'sub':
+            rm = s.rem_of_divmul(I)   # x - (x / d) * d (LLVM DivRemPairs decomposition of a remainder) is emitted as x % d again: same value, linear for integer back ends
+            if rm is not None:
+                out.append('%s = %s;' % (R, em.binop(rm[0], I.ty, V_(rm[1]), V_(rm[2])))); return
         if op in BINOPS:
             out.append('%s = %s;' % (R, em.binop(op, I.ty, V_(I.a), V_(I.b)))); return
         if op == 'fneg': out.append('%s = -(%s);' % (R, V_(I.a))); return
@@ -1056,11 +1088,17 @@ class FuncTranslator:
             fty = TFunc(I.ty, [a.ty for a in args], False)
             callexpr = '((%s)%s)(%s)' % (em.fnptr_ctype(fty), V_(cal), ', '.join(V_(a) for a in args))
         if name in ('@_Znwm', '@_Znam', '@malloc') and I.res in s.uses_bitcast:
-            T = None
+            T = None; best = -1
+            want = args[0].val if args[0].kind == 'int' else None
             for U in s.uses_bitcast[I.res]:
                 t = em.resolve(U.ty)
                 if isinstance(t, TPtr) and not isinstance(em.resolve(t.to), (TFunc, TVoid)) and not (isinstance(em.resolve(t.to), TInt) and em.resolve(t.to).n == 8) and not (isinstance(t.to, TNamed) and em.m.types.get(t.to.name) is None):
-                    T = t.to; break
+                    try: z = em.size_align(t.to)[0]
+                    except Exception: continue
+                    # prefer the type whose size is the allocation size, otherwise the largest one (a node is also cast to its base class)
+                    score = (1 << 40) if (want is not None and z == want) else z
+                    if want is not None and z > want: continue
+                    if score > best: best = score; T = t.to
             if T is not None:
                 sz = em.size_align(T)[0]
                 if sz > 0:
@@ -1094,7 +1132,39 @@ class FuncTranslator:
                         if not (isinstance(to, TInt) and to.n == 8) and not isinstance(to, (TFunc, TVoid)) and not (isinstance(t.to, TNamed) and em.m.types.get(t.to.name) is None):
                             return t.to
                     v = D.x; continue
+                if D.op == 'load':
+                    # i8* loaded through a bitcast of T*** (e.g. unordered_map::clear(): memset of the bucket array): the loaded value is a T**
+                    a = D.ptr; at = None
+                    if a.kind == 'ccast' and a.op == 'bitcast': at = a.x.ty
+                    elif a.kind == 'local' and a.name in s.defs and s.defs[a.name].op == 'bitcast': at = s.defs[a.name].x.ty
+                    t = em.resolve(at) if at is not None else None
+                    if isinstance(t, TPtr):
+                        t2 = em.resolve(t.to)
+                        if isinstance(t2, TPtr):
+                            to = em.resolve(t2.to)
+                            if not (isinstance(to, TInt) and to.n == 8) and not isinstance(to, (TFunc, TVoid)) and not (isinstance(t2.to, TNamed) and em.m.types.get(t2.to.name) is None):
+                                return t2.to
+                    break
+                if D.op in ('call', 'invoke') and v.name in s.uses_bitcast:
+                    # raw i8* returned by an allocation and also used through a typed bitcast (e.g. bucket array: new + memset)
+                    for U in s.uses_bitcast[v.name]:
+                        t = em.resolve(U.ty)
+                        if isinstance(t, TPtr):
+                            to = em.resolve(t.to)
+                            if not (isinstance(to, TInt) and to.n == 8) and not isinstance(to, (TFunc, TVoid)) and not (isinstance(t.to, TNamed) and em.m.types.get(t.to.name) is None):
+                                return t.to
             break
+        return None
+
+    def rem_of_divmul(s, I):
+        def same(u, v):
+            return u.kind == v.kind and ((u.kind == 'local' and u.name == v.name) or (u.kind == 'int' and u.val == v.val))
+        M = s.defs.get(I.b.name) if I.b.kind == 'local' else None
+        if M is None or M.op != 'mul': return None
+        for q, d in ((M.a, M.b), (M.b, M.a)):
+            Q = s.defs.get(q.name) if q.kind == 'local' else None
+            if Q is not None and Q.op in ('sdiv', 'udiv') and same(Q.a, I.a) and same(Q.b, d):
+                return ({'sdiv': 'srem', 'udiv': 'urem'}[Q.op], I.a, d)
         return None
 
     def ptr_of_int(s, v):
@@ -1136,6 +1206,31 @@ class FuncTranslator:
                 off += o; v = ops[0]; continue
             break
         return best
+
+    def path_for(s, T, off, size, want_ct):
+        """C member path ('.f2.f0', '.e[3]') of the scalar / byte-array member of T at byte offset off with the given size and C type, or None"""
+        em = s.em; path = ''
+        for _ in range(24):
+            r = em.resolve(T)
+            try: tsz = em.size_align(T)[0]
+            except Exception: return None
+            if off == 0 and tsz == size and em.ctype(T) == want_ct and not isinstance(r, TStruct): return path
+            if isinstance(r, TStruct):
+                offs, _t = em.field_offsets(r); hit = None
+                for i, (f, o) in enumerate(zip(r.fields, offs)):
+                    fs = em.size_align(f)[0]
+                    if o <= off and off + size <= o + fs and fs > 0: hit = (i, f, o)
+                if hit is None: return None
+                path += '.f%d' % hit[0]; T = hit[1]; off -= hit[2]; continue
+            if isinstance(r, (TArr, TVec)):
+                esz = em.size_align(r.el)[0]
+                if esz == 0: return None
+                k = off // esz
+                if k >= max(r.n, 1) or off + size > (k + 1) * esz:
+                    return None
+                path += '.e[%d]' % k; T = r.el; off -= k * esz; continue
+            return None
+        return None
 
     def leaves(s, T, base=0, acc=None, limit=400):
         em = s.em
@@ -1195,6 +1290,20 @@ class FuncTranslator:
         stmts = []
         dexp = '((uint8_t*)%s)' % V_(d); sexp = '((uint8_t*)%s)' % V_(args[1]) if kind != 'memset' else None
         covered = 0
+        def lv(tbx, pexp, rel, ln, ct):
+            # member-path lvalue through the typed base when the member lines up exactly (keeps CBMC's field-sensitive constant
+            # propagation; a cast of a byte pointer + offset that crosses member boundaries would become a byte_update of the whole object)
+            if tbx is not None:
+                bx, Tx, ox = tbx
+                try:
+                    zx = em.size_align(Tx)[0]
+                    if zx > 0:
+                        k = (ox + rel) // zx; inner = (ox + rel) % zx
+                        pth = s.path_for(Tx, inner, ln, ct)
+                        if pth is not None: return '(%s)[%d]%s' % (V_(bx), k, pth)
+                except Exception:
+                    pass
+            return '*(%s*)(%s + %d)' % (ct, pexp, rel)
         for (o, l, t) in allv:
             lo = max(o, off); hi = min(o + l, off + N)
             if lo >= hi: continue
@@ -1204,10 +1313,10 @@ class FuncTranslator:
                 bt = 'struct %s' % em.lit_struct(TArr(ln, TInt(8)))
                 if kind == 'memset':
                     c = args[1].val & 255
-                    if c == 0: stmts.append('*(%s*)(%s + %d) = (%s){0};' % (bt, dexp, rel, bt))
+                    if c == 0: stmts.append('%s = (%s){0};' % (lv(tbd, dexp, rel, ln, bt), bt))
                     else: stmts.append('for (int i_ = 0; i_ < %d; i_++) (%s + %d)[i_] = %d;' % (ln, dexp, rel, c))
                 else:
-                    stmts.append('{ %s t_ = *(%s*)(%s + %d); *(%s*)(%s + %d) = t_; }' % (bt, bt, sexp, rel, bt, dexp, rel))
+                    stmts.append('{ %s t_ = %s; %s = t_; }' % (bt, lv(tbs, sexp, rel, ln, bt), lv(tbd, dexp, rel, ln, bt)))
             else:
                 if lo != o or hi != o + l: return False  # scalar partially covered
                 ct = em.ctype(t)
@@ -1216,11 +1325,11 @@ class FuncTranslator:
                         r = em.resolve(t)
                         if not isinstance(r, TInt): return False
                         val = int.from_bytes(bytes([args[1].val & 255]) * l, 'little')
-                        stmts.append('*(%s*)(%s + %d) = %s;' % (ct, dexp, rel, em.intlit(r.n, val)))
+                        stmts.append('%s = %s;' % (lv(tbd, dexp, rel, l, ct), em.intlit(r.n, val)))
                     else:
-                        stmts.append('*(%s*)(%s + %d) = 0;' % (ct, dexp, rel))
+                        stmts.append('%s = 0;' % lv(tbd, dexp, rel, l, ct))
                 else:
-                    stmts.append('{ %s t_ = *(%s*)(%s + %d); *(%s*)(%s + %d) = t_; }' % (ct, ct, sexp, rel, ct, dexp, rel))
+                    stmts.append('{ %s t_ = %s; %s = t_; }' % (ct, lv(tbs, sexp, rel, l, ct), lv(tbd, dexp, rel, l, ct)))
         if kind == 'memmove' and len(stmts) > 1:
             return False
         out.append('{ ' + ' '.join(stmts) + ' }')
